@@ -6,17 +6,56 @@ package pot
 
 //@ pred WFLL(ll) = ll != nil && ll.contributors != nil && ll.foldedPlayers != nil
 
-//@ func (*LevelList).AddContributor(ll, wager, idx, fold)
-//@   trusted
-//@   requires WFLL(ll)
-//@   modifies LevelList, Level, map(map[int]int64), map(map[int]bool), elems(*Level), elems(int)
-//@   allocs
-//@   ensures WFLL(ll)
+// the level list mirrors the contributions: strictly increasing levels, one per distinct contributed amount
+//@ pred LEVELSOK(ll) = (forall k :: 0 <= k && k < len(ll.levels) ==> ll.levels[k] != nil)
+//@    && (forall a, b :: 0 <= a && a < b && b < len(ll.levels) ==> ll.levels[a].Level < ll.levels[b].Level)
+//@    && (forall i :: in(i, ll.contributors) ==> (exists k :: 0 <= k && k < len(ll.levels) && ll.levels[k].Level == ll.contributors[i]))
+//@    && (forall k :: 0 <= k && k < len(ll.levels) ==> (exists i :: in(i, ll.contributors) && ll.contributors[i] == ll.levels[k].Level))
 
-//@ func (*LevelList).GetPots(ll) (res)
-//@   trusted
-//@   requires WFLL(ll)
-//@   modifies Pot, Level, map(map[int]int64), elems(*Level), elems(*Pot), elems(int)
-//@   allocs
-//@   ensures WFLL(ll)
-//@   ensures forall k :: 0 <= k && k < len(res) ==> res[k] != nil
+// every player listed for a level paid at least that level (the converse — every such player is listed,
+// exactly once — did not discharge within the budget and is covered by the bounded stand-in, see DESIGN.md)
+//@ pred CONTRIBOK(ll, l) = forall a :: 0 <= a && a < len(l.Contributors) ==> in(l.Contributors[a], ll.contributors) && ll.contributors[l.Contributors[a]] >= l.Level
+
+//@ pred AMOUNTSOK(ll) = forall k :: 0 <= k && k < len(ll.levels) ==>
+//@      ll.levels[k].Wager == ll.levels[k].Level - ite(k == 0, 0, ll.levels[k - 1].Level)
+
+//@ pred LLINV(ll) = WFLL(ll) && LEVELSOK(ll) && (forall k :: 0 <= k && k < len(ll.levels) ==> CONTRIBOK(ll, ll.levels[k])) && AMOUNTSOK(ll)
+//@    && (forall i :: in(i, ll.contributors) ==> ll.contributors[i] >= 0)
+
+//@ func (*LevelList).AssertLevel(ll, level) (res)
+//@   props C16
+//@   requires ll != nil && (forall k :: 0 <= k && k < len(ll.levels) ==> ll.levels[k] != nil)
+//@   modifies ll.levels
+//@   allocs Level, elems(*Level), elems(int)
+//@   ensures res != nil && res.Level == level
+//@   ensures (exists k :: 0 <= k && k < old(len(ll.levels)) && old(ll.levels[k].Level) == level)
+//@             ==> ll.levels == old(ll.levels) && (exists k :: 0 <= k && k < len(ll.levels) && ll.levels[k] == res)
+//@   ensures !(exists k :: 0 <= k && k < old(len(ll.levels)) && old(ll.levels[k].Level) == level)
+//@             ==> len(ll.levels) == old(len(ll.levels)) + 1 && ll.levels[old(len(ll.levels))] == res && fresh(res)
+//@                 && (forall k :: 0 <= k && k < old(len(ll.levels)) ==> ll.levels[k] == old(ll.levels[k]))
+//@   loop 1 invariant forall k :: 0 <= k && k <= rangeindex ==> ll.levels[k].Level != level
+
+//@ func (*LevelList).AddContributor(ll, wager, contributorIdx, fold)
+//@   hints
+//@   props C16 C01
+//@   requires LLINV(ll) && wager >= 0 && !in(contributorIdx, ll.contributors)
+//@   modifies ll.levels, Level, map(map[int]int64), map(map[int]bool), elems(*Level)
+//@   allocs Level, elems(*Level), elems(int)
+//@   ensures [C16] LLINV(ll)
+//@   ensures in(contributorIdx, ll.contributors) && ll.contributors[contributorIdx] == wager
+//@   ensures forall i :: i != contributorIdx ==> (in(i, ll.contributors) <==> old(in(i, ll.contributors))) && ll.contributors[i] == old(ll.contributors[i])
+//@   ensures forall i :: in(i, ll.foldedPlayers) <==> (old(in(i, ll.foldedPlayers)) || (fold && i == contributorIdx))
+//@   ensures len(ll.contributors) == old(len(ll.contributors)) + 1
+//@   -- after the insertion and the sort: one strictly increasing level per distinct amount
+//@   assert AssertLevel:1 forall k :: 0 <= k && k < len(ll.levels) ==> ll.levels[k] != nil
+//@   assert AssertLevel:1 forall a, b :: 0 <= a && a < b && b < len(ll.levels) ==> ll.levels[a].Level != ll.levels[b].Level
+//@   assert AssertLevel:1 forall i :: in(i, ll.contributors) ==> (exists k :: 0 <= k && k < len(ll.levels) && ll.levels[k].Level == ll.contributors[i])
+//@   assert AssertLevel:1 forall k :: 0 <= k && k < len(ll.levels) ==> (exists i :: in(i, ll.contributors) && ll.contributors[i] == ll.levels[k].Level)
+//@   assert Slice:1 LEVELSOK(ll)
+//@   loop 1 invariant LEVELSOK(ll) && (forall k :: 0 <= k && k <= rangeindex ==> CONTRIBOK(ll, ll.levels[k]))
+//@   loop 2 invariant LEVELSOK(ll) && (forall k :: 0 <= k && k < rangeindex + 1 ==> CONTRIBOK(ll, ll.levels[k]))
+//@   loop 2 invariant forall a :: 0 <= a && a < len(pot.Contributors) ==> seen(pot.Contributors[a]) && ll.contributors[pot.Contributors[a]] >= pot.Level
+//@   loop 3 invariant LEVELSOK(ll) && (forall k :: 0 <= k && k < len(ll.levels) ==> CONTRIBOK(ll, ll.levels[k]))
+//@   loop 3 invariant prevLevel == ite(rangeindex < 0, 0, ll.levels[rangeindex].Level)
+//@   loop 3 invariant forall k :: 0 <= k && k <= rangeindex ==>
+//@      ll.levels[k].Wager == ll.levels[k].Level - ite(k == 0, 0, ll.levels[k - 1].Level)
